@@ -404,3 +404,20 @@ class Check(PropertyCheck):
         d2 = jsl.Dispatcher(I)
         twin = copy.deepcopy(d2)
         twin.dispatch(twin.instance.jobs[0][0], twin.instance.jobs[0][0].machines[0])
+        # observers attached LATE (to a dispatcher that already has a history), and the observer-based rule run on a dispatcher
+        # the caller prepared with a partial schedule: they start from what they find - in arrays of their own
+        from job_shop_lib.dispatching.rules import observer_based_most_work_remaining_rule
+        d3 = jsl.Dispatcher(I)
+        k = 0
+        while not d3.schedule.is_complete():
+            op = d3.available_operations()[-1]
+            d3.dispatch(op, op.machines[-1])
+            k += 1
+            if k in (1, 3):
+                late = [feature_observer_factory(t, dispatcher=d3) for t in FeatureObserverType]
+                for o in late:
+                    d3.unsubscribe(o)
+                del late
+            if k == 2 and not d3.schedule.is_complete():
+                nxt = observer_based_most_work_remaining_rule(d3)
+                d3.dispatch(nxt, nxt.machines[0])
